@@ -181,6 +181,34 @@ def v2(F, res):
                 good = False
         if not fins or any(not (tr[f + 1]['kind'] == 'try' if f + 1 < len(tr) else False) for f in fins) or any(tr[f]['loops'] for f in fins):
             res.bad('function-body/finish', 'validator.finish()? must follow the operator loop of LocalFunction::parse')
+        # the loop reads the body to its end: its only continuation condition is "the reader is not at eof", so that no
+        # byte of the body escapes the validator (finish() only checks where the last `end` was)
+        loops = set()
+        for a in apps:
+            for l in tr[a]['loops']:
+                loops.add(l)
+        conds = []
+        asm = {show(k[1]): v for k, v in w.assumptions if isinstance(k, tuple) and k and k[0] == 'atom'}
+        for l in loops:
+            t = l
+            if isinstance(t, tuple) and t[0] == 'call' and t[1] == 'while' and t[2]:
+                t = t[2][0]
+            if isinstance(t, tuple) and t[0] == 'call' and t[1] == 'cond' and t[2]:
+                t = t[2][0]
+            neg = False
+            while isinstance(t, tuple) and t[0] == 'un' and t[1] == 'Not':
+                t, neg = t[2], not neg
+            st = show(t)
+            # the body of the loop runs in worlds where the recorded condition atom has the value that keeps the loop going
+            runs_when = asm.get(st)
+            conds.append((st, (runs_when is False) != neg if runs_when is not None else neg))
+        eof_ok = any(neg and re.match(r'^eof\(.*body.*\)$', c) for c, neg in conds)
+        if not eof_ok:
+            res.bad('function-body/reads-whole-body', 'the operator loop of LocalFunction::parse must run until the body reader is at eof '
+                    '(loop condition: %s): bytes after the point where it stops are never decoded or validated'
+                    % ['%s%s' % ('!' if n else '', c[:60]) for c, n in conds])
+        else:
+            res.ok('function-body/reads-whole-body', {'loop_condition': '!body.eof()'}, nontrivial=False)
         if good:
             okk += 1
         else:
